@@ -10,6 +10,7 @@ from .common import Obs, arms_of, call0, choices_of, cond_has, ctor_fields, is_z
 from .distribution import is_tag
 
 MOD = "combinators/vmap.py"
+FAMILY = "C11"
 SELF = P("self")
 GF = ("attr", SELF, "gen_fn")
 INAX = ("attr", SELF, "in_axes")
@@ -41,7 +42,7 @@ def analyse(obs: Obs, prog):
 
     def build_checks(tr_ctor, inner_elem, args_term, length, inst, where, props):
         f = ctor_fields(prog, tr_ctor, "VmapTrace", inst)
-        obs.add(props | {"C01"}, "TRACE-ARGS", inst, f.get("args") == args_term, derived=f.get("args"), expected=show(args_term), where=where)
+        obs.add(props | {"C01", FAMILY}, "TRACE-ARGS", inst, f.get("args") == args_term, derived=f.get("args"), expected=show(args_term), where=where)
         obs.add(props | {"C01", "C02", "C11"}, "SCORE-AGG", inst + "/score", f.get("score") == jsum(stack(score_of(inner_elem))), derived=f.get("score"), expected="sum over elements of the element trace's score", where=where)
         chm = f.get("chm")
         okc = is_t(chm, "phi") and chm[1] == ("cmp", "==", length, C(0)) and is_call(chm[2], "empty") and chm[3] == stack(choices_of(inner_elem))
